@@ -275,8 +275,16 @@ pub fn run(cx: &mut Cx) {
             inc[i] = vec![];
             sources(&Graph { names: g.names.clone(), use_prefix: g.use_prefix, two_prefixes: g.two_prefixes, ext, inc, supers: g.supers.clone(), shape: String::new() })
         });
+        // or with one template held back and added alone afterwards (preferably one under the first prefix: what a short
+        // name resolves to then changes although the templates using that name are not registered again)
+        let held = if case % 4 == 1 && k > 1 {
+            let firsts: Vec<usize> = (0..k).filter(|i| g.names[*i].starts_with("p/")).collect();
+            Some(if !firsts.is_empty() && rng.chance(3, 4) { *rng.pick(&firsts) } else { rng.below(k) })
+        } else {
+            None
+        };
         let replay = json!({"shape": g.shape, "templates": srcs, "fallback_prefixes": if g.two_prefixes { 2 } else if g.use_prefix { 1 } else { 0 },
-            "registration": match cut { Some(i) => format!("first every template with the edges of {} cut, then {} again with its real source", g.names[i], g.names[i]), None => "one batch".to_string() }});
+            "registration": match (cut, held) { (Some(i), _) => format!("first every template with the edges of {} cut, then {} again with its real source", g.names[i], g.names[i]), (_, Some(h)) => format!("first every template but {}, then {} alone (one batch if the first step is refused)", g.names[h], g.names[h]), _ => "one batch".to_string() }});
         cx.eval();
         let built = guard(|| {
             let fresh = || {
@@ -290,6 +298,14 @@ pub fn run(cx: &mut Cx) {
                 let mut t = fresh();
                 if t.add_raw_templates(cs.clone()).is_ok() {
                     let r = t.add_raw_template(&srcs[i].0, &srcs[i].1);
+                    return (t, r, true);
+                }
+            }
+            if let Some(h) = held {
+                let mut t = fresh();
+                let rest: Vec<(String, String)> = srcs.iter().enumerate().filter(|(i, _)| *i != h).map(|(_, s)| s.clone()).collect();
+                if t.add_raw_templates(rest).is_ok() {
+                    let r = t.add_raw_template(&srcs[h].0, &srcs[h].1);
                     return (t, r, true);
                 }
             }
